@@ -2,6 +2,7 @@
 import itertools
 import multiprocessing
 import os
+import re
 import shutil
 import time
 
@@ -338,51 +339,87 @@ SCALING_FAMILIES = {
     "crlf-statements": lambda n: _rep(lambda i: b'fn f%d() {\r\n    info!("statement %d");\r\n}\r\n' % (i, i), n),
     "corpus-concatenated": lambda n: SIZE_FAMILIES["corpus-concatenated"](n),
 }
-SCALE_RATIO = 9.0       # time(4n) / time(n): 4 when linear, 16 when quadratic
-SCALE_FLOOR_S = 3.0     # ... and only when the larger input costs real time (CPU seconds)
+SCALE_RATIO = 9.0        # instructions(4n) / instructions(n): 4 when linear, 16 when quadratic
+SCALE_FLOOR = 1.0e9      # ... and only when the larger input costs real work (user-space instructions; roughly 0.3 s)
+MANY_FILES = "many-small-files"      # size = number of 256-byte files spread over 64 directories
+CALLGRIND = ("valgrind", "--tool=callgrind", "--callgrind-out-file=/dev/null", "--dump-instr=no", "--collect-jumps=no")
+MODES = ((False, True), (True, False), (False, False))      # (structured, check)
+
+
+def _scale_tree(fam, size):
+    if fam == MANY_FILES:
+        return {"src/d%02d/f%05d.rs" % (i % 64, i): (b'fn f%d() { info!("statement %d {}", %d); }\n' % (i, i, i)).ljust(255, b" ") + b"\n"
+                for i in range(size // 256)}
+    return {"src/big.rs": SCALING_FAMILIES[fam](size)}
 
 
 def _scale_job(args):
-    fam, size, structured, check, work = args
-    content = SCALING_FAMILIES[fam](size)
-    proj = os.path.join(work, "sc_%s_%d_%d_%d" % (fam, size, structured, check))
-    cli.write_tree(proj, {"src/big.rs": content, "Breadlog.yaml": cli.config_yaml("./src", use_cache=False, structured=structured)})
-    r = cli.run_breadlog(os.path.join(proj, "Breadlog.yaml"), check=check, cwd=work, tmpdir=work, timeout=1800)
-    shutil.rmtree(proj, ignore_errors=True)
-    return fam, size, structured, check, len(content), r.panicked, r.timed_out, r.signal, r.exit, r.cpu, r.stderr[-300:]
+    """One shape in one mode at ascending sizes, each run under callgrind, which counts the user-space instructions the process executes: a
+    measure that does not depend on machine load, caches or the file system. Stops at the first pair of sizes that decides a violation (the
+    next size would cost 16 times more again)."""
+    fam, sizes, structured, check, work = args
+    out = []
+    prev_wall = None
+    for size in sizes:
+        proj = os.path.join(work, "sc_%s_%d_%d_%d" % (fam, size, structured, check))
+        tree = _scale_tree(fam, size)
+        tree["Breadlog.yaml"] = cli.config_yaml("./src", use_cache=False, structured=structured)
+        cli.write_tree(proj, tree)
+        limit = 900 if prev_wall is None else max(900, 40 * prev_wall)
+        r = cli.run_breadlog(os.path.join(proj, "Breadlog.yaml"), check=check, cwd=work, tmpdir=work, timeout=limit, wrapper=CALLGRIND)
+        shutil.rmtree(proj, ignore_errors=True)
+        m = re.search(rb"Collected : (\d+)", r.stderr)
+        ir = int(m.group(1)) if m else None
+        out.append({"size": size, "ir": ir, "timed_out": r.timed_out, "limit": limit, "signal": r.signal, "exit": r.exit, "wall": r.wall,
+                    "panicked": r.panicked, "stderr": r.stderr[-300:].decode("utf-8", "replace")})
+        if r.timed_out or ir is None:
+            break
+        if len(out) >= 2 and out[-2]["ir"] and ir >= SCALE_FLOOR and ir / out[-2]["ir"] >= SCALE_RATIO:
+            break
+        prev_wall = r.wall
+    return fam, structured, check, out
 
 
 def scaling_family(v, work, tier, pool):
-    """Run time on ordinary shapes grows in proportion to the input: the same shape at 4x the size may not cost >= 9x the CPU time once the
-    cost is seconds (a linear implementation measures 4x whatever its constant, a quadratic one 16x). CPU time of the child process, so the
-    verdict does not depend on what else the machine is doing."""
-    sizes = [2 ** 16, 2 ** 18, 2 ** 20] + ([2 ** 22] if tier == "thorough" else [])
-    jobs = [(fam, size, structured, check, work) for fam in SCALING_FAMILIES for size in sizes
-            for structured, check in ((False, True), (True, False), (False, False))]
-    cpu = {}
-    for fam, size, structured, check, nbytes, panicked, timed_out, sig, ex, c, err in pool.imap_unordered(_scale_job, sorted(jobs, key=lambda j: -j[1])):
-        v.count()
-        v.distinct(("scale", fam, size, structured, check))
-        cpu[(fam, structured, check, size)] = c
-        if panicked or timed_out or sig is not None:
-            v.violation("size:%s:%s" % (fam, "no-termination-within-1800s@%d-bytes" % size if timed_out else "crash"),
-                        {"family": fam, "bytes": nbytes, "mode": "check" if check else "edit", "structured": structured, "timed_out": timed_out,
-                         "signal": sig, "exit": ex, "cpu_s": round(c, 2), "stderr": err.decode("utf-8", "replace")})
+    """Run time on ordinary shapes grows in proportion to the input: the same shape at 4x the size may not execute >= 9x the instructions once
+    the work is substantial (a linear implementation measures 4x whatever its constant, n log n about 4.4x, a quadratic one 16x)."""
+    sizes = [2 ** 14, 2 ** 16, 2 ** 18] + ([2 ** 20] if tier == "thorough" else [])
+    fams = list(SCALING_FAMILIES) + [MANY_FILES]
+    jobs = [(fam, sizes, structured, check, work) for fam in fams for structured, check in MODES]
     table = {}
-    for fam in SCALING_FAMILIES:
-        for structured, check in ((False, True), (True, False), (False, False)):
-            series = [cpu[(fam, structured, check, s)] for s in sizes]
-            table["%s/%s/%s" % (fam, "kv" if structured else "msg", "check" if check else "edit")] = [round(x, 2) for x in series]
-            for a, b, s in zip(series, series[1:], sizes[1:]):
-                if b >= SCALE_FLOOR_S and b / max(a, 0.01) >= SCALE_RATIO:
-                    v.violation("size:%s:super-linear-run-time" % fam,
-                                {"family": fam, "mode": "check" if check else "edit", "structured": structured, "sizes": sizes, "cpu_s": [round(x, 2) for x in series],
-                                 "what": "%d bytes cost %.1f s of CPU, %.1f times what %d bytes of the same shape cost" % (s, b, b / max(a, 0.01), s // 4)},
-                                replay_files={"gen.py": "# python3 -c 'import sys; sys.path[:0]=[\"/verif/lib\",\"/verif/lib/props\"]; import c17; "
-                                                        "sys.stdout.buffer.write(c17.SCALING_FAMILIES[\"%s\"](%d))' > big.rs\n" % (fam, s)})
-    v.coverage["cpu_s_by_shape_and_size"] = table
-    v.subspace("scaling: %d ordinary shapes x sizes %r x {check/msg, edit/kv, edit/msg}; CPU time at 4x the size must stay below %gx once it reaches %g s"
-               % (len(SCALING_FAMILIES), sizes, SCALE_RATIO, SCALE_FLOOR_S), len(jobs), exhaustive=True)
+    nruns = 0
+    for fam, structured, check, out in pool.imap_unordered(_scale_job, jobs):
+        key = "%s/%s/%s" % (fam, "kv" if structured else "msg", "check" if check else "edit")
+        table[key] = [o["ir"] for o in out]
+        for o in out:
+            nruns += 1
+            v.count()
+            v.distinct(("scale", fam, o["size"], structured, check))
+        last = out[-1]
+        info = {"family": fam, "mode": "check" if check else "edit", "structured": structured, "sizes": [o["size"] for o in out],
+                "instructions": [o["ir"] for o in out]}
+        gen_note = ("# python3 -c 'import sys; sys.path[:0]=[\"/verif/lib\",\"/verif/lib/props\"]; import c17; "
+                    "sys.stdout.buffer.write(c17.SCALING_FAMILIES[\"%s\"](%d))' > big.rs\n" % (fam, last["size"]) if fam != MANY_FILES else
+                    "# %d files of 256 bytes, one unreferenced statement each, in 64 directories\n" % (last["size"] // 256))
+        if last["panicked"] or (last["signal"] is not None and not last["timed_out"]):
+            v.violation("size:%s:crash" % fam, dict(info, signal=last["signal"], exit=last["exit"], stderr=last["stderr"]), replay_files={"gen.py": gen_note})
+        elif last["timed_out"]:
+            if len(out) >= 2:
+                v.violation("size:%s:super-linear-run-time" % fam,
+                            dict(info, what="%d bytes did not finish within %d s under instruction counting, more than 40 times what %d bytes took"
+                                 % (last["size"], last["limit"], out[-2]["size"])), replay_files={"gen.py": gen_note})
+            else:
+                v.violation("size:%s:no-termination-within-%ds@%d-bytes" % (fam, last["limit"], last["size"]), info, replay_files={"gen.py": gen_note})
+        elif last["ir"] is None:
+            raise MachineryError("callgrind reported no instruction count: %s" % last["stderr"])
+        elif len(out) >= 2 and last["ir"] >= SCALE_FLOOR and last["ir"] / out[-2]["ir"] >= SCALE_RATIO:
+            v.violation("size:%s:super-linear-run-time" % fam,
+                        dict(info, what="%d bytes cost %.2e instructions, %.1f times what %d bytes of the same shape cost"
+                             % (last["size"], last["ir"], last["ir"] / out[-2]["ir"], out[-2]["size"])), replay_files={"gen.py": gen_note})
+    v.coverage["instructions_by_shape_and_size"] = table
+    v.coverage["scaling_worst_ratio"] = round(max((b / a for t in table.values() for a, b in zip(t, t[1:]) if a and b), default=0), 2)
+    v.subspace("scaling: %d ordinary shapes x sizes %r x {check/msg, edit/kv, edit/msg}, every run under callgrind (user-space instruction count): "
+               "4x the size must stay below %gx the instructions once it reaches %.0e" % (len(fams), sizes, SCALE_RATIO, SCALE_FLOOR), nruns, exhaustive=True)
 
 
 def run(tier, v):
